@@ -222,7 +222,10 @@ def digest(text):
 
 
 def eval_build(ref, perms, policy):
-    """Build content `ref` with the given part permutations under set policy `policy` (None = sets not shadowed)."""
+    """Build content `ref` with the given part permutations under set policy `policy` (None = sets not shadowed) and compare
+    with the canonical-order build made in the same interpreter.  Verdict only: raw bytes may legitimately differ between
+    interpreters when the property is violated."""
+    canon = build(content_of(ref), {})[1]
     shadow_sets(policy is not None)
     OrderedProbeSet.policy = policy
     try:
@@ -230,7 +233,7 @@ def eval_build(ref, perms, policy):
     finally:
         OrderedProbeSet.policy = None
         shadow_sets(False)
-    return {"result": digest(r[1]) if r[0] == "ok" else r[1]}
+    return {"identical_to_canonical": r[0] == "ok" and r[1] == canon, "error": None if r[0] == "ok" else r[1]}
 
 
 def eval_reload(ref, policy):
@@ -246,15 +249,15 @@ def eval_reload(ref, policy):
     finally:
         OrderedProbeSet.policy = None
         shadow_sets(False)
-    return {"canonical": digest(canon), "result": digest(r[1]) if r[0] == "ok" else r[1]}
+    return {"identical_to_canonical": r[0] == "ok" and r[1] == canon, "error": None if r[0] == "ok" else r[1]}
 
 
 def eval_repeat(ref):
     obj, text = build(content_of(ref), {})
-    outs = [digest(text)]
+    outs = [text]
     for _ in range(2):
-        outs.append(digest(TI.dumps(obj) if ref[0] == "ti" else obj.dumps()))
-    return {"dumps": outs}
+        outs.append(TI.dumps(obj) if ref[0] == "ti" else obj.dumps())
+    return {"all_identical": len(set(outs)) == 1}
 
 
 def lint(fmt, text):
@@ -316,7 +319,7 @@ def eval_cross(fmt, seed, edit):
         b = call(lambda: d(obj))
     except (KeyError, IndexError, AttributeError, ValueError, TypeError) as exc:
         b = ["exc", type(exc).__name__]
-    return {"scratch": digest(a[1]), "reloaded": digest(b[1]) if b[0] == "ok" else b[1]}
+    return {"scratch": "ok", "identical": b[0] == "ok" and a[1] == b[1], "reloaded_error": None if b[0] == "ok" else b[1]}
 
 
 def battery():
@@ -331,6 +334,25 @@ def battery():
         obj.loads(build(c, {})[1])
         out["%s%d/reload" % (fmt, n)] = digest(TI.dumps(obj) if fmt == "ti" else obj.dumps())
     return out
+
+
+def eval_hashseed(s):
+    env = dict(os.environ, PYTHONHASHSEED=str(s), PYTHONDONTWRITEBYTECODE="1", PYTHONUTF8="1")
+    base = battery()                       # this interpreter (PYTHONHASHSEED as the check was started)
+    p = subprocess.run([sys.executable, "-c", "import json,sys; sys.path.insert(0, %r); from mc.core.runner import bind_repo; bind_repo(); "
+                        "from mc.checks import c08; print('BATTERY ' + json.dumps(c08.battery(), sort_keys=True))"
+                        % os.path.dirname(os.path.dirname(os.path.dirname(os.path.abspath(__file__))))],
+                       env=env, stdout=subprocess.PIPE, stderr=subprocess.PIPE, universal_newlines=True, timeout=600)
+    line = [l for l in p.stdout.splitlines() if l.startswith("BATTERY ")]
+    if not line:
+        raise RuntimeError("hash-seed battery failed under seed %d: %s" % (s, p.stderr[-800:]))
+    other = json.loads(line[0][8:])
+    return {"n": len(other),
+            "differs_from_this_interpreter": sorted(kk for kk in base if other.get(kk) != base[kk]),
+            "differs_from_canonical": sorted(kk for kk in other if other[kk] != other[kk.split("/")[0]])}
+
+
+NONDETERMINISM_IS_VIOLATION = True      # output that differs between identical runs is exactly what C08 forbids
 
 
 # ---- exploration --------------------------------------------------------------------------------
@@ -355,7 +377,6 @@ def run_unit(unit, acc):
         _, fmt, n, tier = unit
         ref = [fmt, n]
         c = content_of(ref)
-        canon = eval_build(ref, {}, None)["result"]
         acc.state((fmt, n, "canonical"))
         singles = []
         for pi, part in enumerate(c["parts"]):
@@ -373,11 +394,11 @@ def run_unit(unit, acc):
             acc.trans()
             acc.trace()
             acc.state((fmt, n, json.dumps(perms, sort_keys=True)))
-            if o["result"] != canon:
+            if not o["identical_to_canonical"]:
                 acc.violation("construction-order:%s:part%s" % (fmt, "+".join(map(str, sorted(perms)))),
-                              {"kind": "build", "ref": ref, "perms": {str(k2): v for k2, v in perms.items()}, "policy": None, "canonical": canon}, o,
-                              "%s content %d built with part order %s gives %s, canonical build %s (steps: %s)"
-                              % (fmt, n, perms, o["result"], canon, [c["parts"][p][i][:3] for p in perms for i in perms[p]][:6]))
+                              {"kind": "build", "ref": ref, "perms": {str(k2): v for k2, v in perms.items()}, "policy": None}, o,
+                              "%s content %d built with part order %s does not give the bytes of the canonical-order build (%s; steps: %s)"
+                              % (fmt, n, perms, o["error"] or "different text", [c["parts"][p][i][:3] for p in perms for i in perms[p]][:6]))
             else:
                 acc.outcome("perm:identical")
             acc.nontriv((fmt, n, json.dumps(perms, sort_keys=True)))
@@ -385,23 +406,23 @@ def run_unit(unit, acc):
     elif k == "sets":
         _, fmt, n, tier = unit
         ref = [fmt, n]
-        canon = eval_build(ref, {}, None)["result"]
         for policy in range(24 if tier == "quick" else 48):
             OrderedProbeSet.iterated = 0
             o = eval_build(ref, {}, policy)
             acc.ev()
             acc.trans()
-            if o["result"] != canon:
-                acc.violation("set-order:" + fmt, {"kind": "build", "ref": ref, "perms": {}, "policy": policy, "canonical": canon}, o,
-                              "%s content %d under set-iteration policy %d gives %s, canonical %s" % (fmt, n, policy, o["result"], canon))
+            if not o["identical_to_canonical"]:
+                acc.violation("set-order:" + fmt, {"kind": "build", "ref": ref, "perms": {}, "policy": policy}, o,
+                              "%s content %d built under set-iteration policy %d does not give the canonical bytes (%s)"
+                              % (fmt, n, policy, o["error"] or "different text"))
             elif fmt in ("ci", "im", "ti"):
                 acc.outcome("setorder:identical")
             o = eval_reload(ref, policy)
             acc.ev()
-            if o["result"] != o["canonical"]:
+            if not o["identical_to_canonical"]:
                 acc.violation("set-order-on-load:" + fmt, {"kind": "reload", "ref": ref, "policy": policy}, o,
-                              "%s content %d loaded and re-dumped under set-iteration policy %d gives %s, canonical %s"
-                              % (fmt, n, policy, o["result"], o["canonical"]))
+                              "%s content %d loaded and re-dumped under set-iteration policy %d does not give the canonical bytes (%s)"
+                              % (fmt, n, policy, o["error"] or "different text"))
             elif fmt in ("ci", "im", "ti"):
                 acc.outcome("setorder:on-load:identical")
             acc.nontriv((fmt, n, "policy", policy))
@@ -411,8 +432,8 @@ def run_unit(unit, acc):
         ref = [fmt, n]
         o = eval_repeat(ref)
         acc.ev()
-        if len(set(o["dumps"])) != 1:
-            acc.violation("repeat:" + fmt, {"kind": "repeat", "ref": ref}, o, "%s content %d: repeated dumps differ: %s" % (fmt, n, o["dumps"]))
+        if not o["all_identical"]:
+            acc.violation("repeat:" + fmt, {"kind": "repeat", "ref": ref}, o, "%s content %d: three successive dumps of one object differ" % (fmt, n))
         else:
             acc.outcome("repeat:identical")
         o = eval_lint(ref)
@@ -425,23 +446,13 @@ def run_unit(unit, acc):
                 acc.outcome("caller-order:kept")
     elif k == "hashseed":
         s = unit[1]
-        env = dict(os.environ, PYTHONHASHSEED=str(s), PYTHONDONTWRITEBYTECODE="1", PYTHONUTF8="1")
-        base = battery()                       # this interpreter (PYTHONHASHSEED as the check was started)
-        p = subprocess.run([sys.executable, "-c", "import json,sys; sys.path.insert(0, %r); from mc.core.runner import bind_repo; bind_repo(); "
-                            "from mc.checks import c08; print('BATTERY ' + json.dumps(c08.battery(), sort_keys=True))"
-                            % os.path.dirname(os.path.dirname(os.path.dirname(os.path.abspath(__file__))))],
-                           env=env, stdout=subprocess.PIPE, stderr=subprocess.PIPE, universal_newlines=True, timeout=600)
-        line = [l for l in p.stdout.splitlines() if l.startswith("BATTERY ")]
-        if not line:
-            raise RuntimeError("hash-seed battery failed under seed %d: %s" % (s, p.stderr[-800:]))
-        other = json.loads(line[0][8:])
-        acc.ev(len(other))
-        acc.trans(len(other))
-        diffs = sorted(kk for kk in base if other.get(kk) != base[kk])
-        canon_diffs = sorted(kk for kk in base if base[kk] != base[kk.split("/")[0]])
-        if diffs or canon_diffs:
-            acc.violation("hash-seed", {"kind": "hashseed", "seed": s}, {"differs_from_this_interpreter": diffs, "differs_from_canonical": canon_diffs},
-                          "under PYTHONHASHSEED=%d these dumps differ: %s %s" % (s, diffs[:5], canon_diffs[:5]))
+        o = eval_hashseed(s)
+        acc.ev(o["n"])
+        acc.trans(o["n"])
+        if o["differs_from_this_interpreter"] or o["differs_from_canonical"]:
+            acc.violation("hash-seed", {"kind": "hashseed", "seed": s}, o,
+                          "under PYTHONHASHSEED=%d these dumps differ: %s %s"
+                          % (s, o["differs_from_this_interpreter"][:5], o["differs_from_canonical"][:5]))
         else:
             acc.outcome("hashseed:identical")
         acc.nontriv(("hashseed", s))
@@ -453,12 +464,12 @@ def run_unit(unit, acc):
             o = eval_cross(fmt, name, e)
             acc.ev()
             acc.trans()
-            if "reloaded" not in o:
+            if o["scratch"] != "ok":
                 continue
-            if o["scratch"] != o["reloaded"]:
+            if not o["identical"]:
                 acc.violation("reloaded-vs-scratch:%s:%s" % (fmt, e[0]), {"kind": "cross", "fmt": fmt, "seed": name, "edit": e}, o,
-                              "%s %s + %s: built from scratch %s, same content reached through a re-loaded object %s"
-                              % (fmt, name, e, o["scratch"], o["reloaded"]))
+                              "%s %s + %s: the same content reached through a re-loaded object dumps to different bytes than built from scratch (%s)"
+                              % (fmt, name, e, o["reloaded_error"] or "different text"))
             else:
                 acc.outcome("reloaded-vs-scratch:identical")
 
@@ -475,8 +486,7 @@ def replay(case):
         return eval_lint(case["ref"])
     if k == "cross":
         return eval_cross(case["fmt"], case["seed"], case["edit"])
-    base = battery()
-    return {"note": "hash-seed differences need a second interpreter; canonical digests of this one", "n": len(base)}
+    return eval_hashseed(case["seed"])
 
 
 KNOWN = {}
